@@ -98,7 +98,7 @@ func (b *baseUnderlay) Close() error {
 
 	b.sessionMap.Range(func(k, v any) bool {
 		s := v.(*Session)
-		s.Close()
+		s.closeByUnderlay()
 		s.wg.Wait()
 		return true
 	})
@@ -172,7 +172,7 @@ func (b *baseUnderlay) RemoveSession(s *Session) error {
 	}
 
 	b.sessionMap.Delete(s.id)
-	s.Close()
+	s.closeByUnderlay()
 	s.wg.Wait()
 	return nil
 }
